@@ -302,6 +302,20 @@ func runCheck(prop, tier string, seed uint64, skipLean bool) int {
 	}
 	if driverOK {
 		runStreams(ctx)
+		if tier == "thorough" {
+			// further derived seeds: three more for the properties whose streams are cheap (analyzer, mixin, fixer,
+			// classification), one more for the Flatten properties (each Flatten runs in a child process)
+			extra := 3
+			if strings.Compare(prop, "C10") <= 0 {
+				extra = 1
+			}
+			for k := 1; k <= extra; k++ {
+				ck := *ctx
+				ck.Seed = ctx.Seed + uint64(k)*7919
+				fmt.Printf("thorough: derived seed %d\n", ck.Seed)
+				runStreams(&ck)
+			}
+		}
 		// a broken obligation or correspondence without a concrete failing input: intensify the search
 		if hasKind(findings, "obligation", "correspondence") && !hasKind(findings, "property") {
 			c2 := *ctx
